@@ -35,6 +35,15 @@ var c06Props = func() []c06Prop {
 			out = append(out, c06Prop{st.Name(), "Source.Content"}, c06Prop{st.Name(), "Source.ContentOnly"}) // a source with and without its media type
 		}
 	}
+	// the text next to sibling text properties that are set and say nothing (entries without text), in a value that holds nothing
+	// else: what one property has not got to say takes nothing away from the others
+	for _, tn := range []string{"Object", "Actor", "Activity", "Question", "Place", "OrderedCollection", "Tombstone"} {
+		for _, f := range []string{"Name", "Summary", "Content", "PreferredUsername"} {
+			if _, ok := vocab.FieldByName(vocab.StructType(tn), f); ok {
+				out = append(out, c06Prop{tn, f + "@textless-siblings"})
+			}
+		}
+	}
 	// an object that is nothing but its text (no id, no type), on its own and as a member of another object's tag list
 	for _, f := range []string{"Name", "Summary", "Content", "Source.Content", "Source.ContentOnly"} {
 		out = append(out, c06Prop{"Object", f + "@anon"}, c06Prop{"Object", f + "@anon-nested"})
@@ -89,6 +98,15 @@ func c06Build(p c06Prop, nl ap.NaturalLanguageValues) ap.Item {
 		v.FieldByName("Source").Set(reflect.ValueOf(ap.Source{Content: nl}))
 	} else {
 		v.FieldByName(field).Set(reflect.ValueOf(nl))
+	}
+	if anon == "textless-siblings" {
+		v.FieldByName("ID").SetString("https://example.com/texts/1")
+		v.FieldByName("Type").SetString(string(vocab.DefaultType[p.GoType]))
+		for _, other := range []string{"Name", "Summary", "Content", "PreferredUsername"} {
+			if f := v.FieldByName(other); f.IsValid() && other != field {
+				f.Set(reflect.ValueOf(ap.NaturalLanguageValues{{Ref: "en", Value: ap.Content("")}, {Ref: "fr"}}))
+			}
+		}
 	}
 	if anon == "anon-nested" {
 		return &ap.Object{ID: "https://example.com/texts/1", Type: ap.NoteType, Tag: ap.ItemCollection{ap.IRI("https://example.com/tags/first"), ptr.Interface().(ap.Item)}}
